@@ -146,6 +146,54 @@ def equal_but_different(ctx):
     ctx.case({"directed": "equal-but-different"}, True)
 
 
+SHARED_DEFAULTS = [(1, True), (True, 1), (1, 1.0), (1.0, 1, True), (0, False), ([1], [True]), ((1.0,), (1,)), ({"k": 1}, {"k": True}), ("1", _Colour.RED), (0.0, 0, False)]
+
+
+def shared_equal_defaults(ctx):
+    """Two or three nodes read ONE input name and each declares its own signature default for it; the defaults compare
+    equal (so the graph is accepted) but are different values (1 / True / 1.0, [1] / [True]). Nobody supplies the
+    name: every node must be evaluated with the default written in ITS signature, in every node order, flat or with one
+    of the readers inside a nested graph."""
+    import asyncio
+    import itertools
+
+    from hypergraph import AsyncRunner, FunctionNode, Graph, SyncRunner
+
+    rng = ctx.rng
+    combos = SHARED_DEFAULTS
+    for defaults in combos:
+        for nested_at in (None, rng.randrange(len(defaults))):
+            orders = list(itertools.permutations(range(len(defaults))))
+            for order in orders if len(orders) <= 2 else rng.sample(orders, 3):
+                rt.reset_program()
+                nodes = {}
+                for j, d in enumerate(defaults):
+                    fid = f"sd/r{j}"
+                    fn = rt.make_function(f"r{j}", fid, [{"n": "x"}, {"n": "k", "d": d}])
+                    rt.KIND[fid] = "fn"
+                    rt.BEH[fid] = lambda kw: (repr(kw["k"]), type(kw["k"]).__name__)
+                    nd = FunctionNode(fn, name=f"r{j}", output_name=f"o{j}")
+                    if j == nested_at:
+                        nd = Graph([nd], name=f"box{j}").as_node()
+                    nodes[j] = nd
+                case = {"program": "shared input name, equal-but-different signature defaults", "defaults": repr(defaults), "order": list(order), "nested_reader": nested_at}
+                try:
+                    g = Graph([nodes[j] for j in order], name="sd")
+                except Exception as e:  # noqa: BLE001
+                    ctx.violation("C01:valid-graph-rejected", f"defaults {defaults!r} compare equal, yet the graph was rejected: {e!r}", case)
+                    continue
+                exp = {f"o{j}": (repr(d), type(d).__name__) for j, d in enumerate(defaults)}
+                for runner in ("sync", "async"):
+                    rt.new_rec()
+                    r = SyncRunner().run(g, {"x": "run:x"}) if runner == "sync" else asyncio.run(AsyncRunner().run(g, {"x": "run:x"}))
+                    ctx.obs["shared_default_runs"] += 1
+                    ctx.obs["values_compared"] += len(exp)
+                    got = {k: r.values.get(k) for k in exp}
+                    if got != exp:
+                        ctx.violation("C01:values:wrong:shared-name-own-default", f"{runner}: readers of k with defaults {defaults!r} in order {list(order)} (nested reader: {nested_at}): got {got}, each node evaluated with its own default gives {exp}", {**case, "runner": runner})
+    ctx.case({"directed": "shared-equal-defaults"}, True)
+
+
 def run(ctx):
     n = 150 if ctx.tier == "quick" else 9000
     if ctx.replay:
@@ -160,6 +208,7 @@ def run(ctx):
         return
     if ctx.shard[0] == 0:
         equal_but_different(ctx)
+        shared_equal_defaults(ctx)
         # directed: a nested graph with its own binding that the selection does not need but that can still run
         for sel_kind in ("graph", "runtime"):
             for sel in (["p"], ["p", "m"]):
